@@ -23,11 +23,11 @@ TRIGGERS = {
 }
 PRIOS = [Priority.NOW, Priority.CREW, Priority.DOING, Priority.TODO]
 EVENTS = ['COMPLETE oldest', 'COMPLETE newest', 'TICK', 'TICK new-data', 'SUBMIT now', 'SUBMIT crew', 'SUBMIT doing', 'SUBMIT todo', 'SUBMIT todo git-fails',
-          'RESET', 'WORK up', 'WORK down', 'FOREIGN', 'SETTLE']
+          'RESET', 'WORK queue', 'WORK doing', 'FOREIGN', 'SETTLE', 'WORK busy']
 
 
 def cond(p, level):
-    return {Priority.NOW: True, Priority.CREW: level < 3, Priority.DOING: level < 2, Priority.TODO: level == 0}[p]
+    return {Priority.NOW: True, Priority.CREW: 'b' not in level, Priority.DOING: 'd' not in level, Priority.TODO: 'q' not in level}[p]
 
 
 def boot(w, how):
@@ -81,6 +81,7 @@ def hist_body(prop, start, k, sel):
         with rt.island():
             name = EVENTS[e]
             f = w.fsm
+            w.level = w.actual_level()
             before = w.snapshot()
             lvl_before = w.level
             active_before = f.is_pipeline_active()
@@ -122,11 +123,12 @@ def hist_body(prop, start, k, sel):
                 elif active_before:
                     rt.fail('c12:reset-refused-while-active', str(r))
             elif name.startswith('WORK'):
-                lv = w.level + (1 if name.endswith('up') else -1)
-                if not 0 <= lv <= 3:
-                    return
-                rt.note(f'WORK level {w.level}->{lv}')
+                flag = {'queue': 'q', 'doing': 'd', 'busy': 'b'}[name.split()[1]]
+                lv = w.level ^ {flag}
+                rt.note(f'WORK {sorted(w.level)} -> {sorted(lv)}')
                 w.set_level(lv)
+                if w.level == lvl_before:
+                    return
             elif name == 'SETTLE':
                 # every background step that can finish does, repeatedly (one reload cycle fits in one event)
                 rt.note('SETTLE')
@@ -144,6 +146,15 @@ def hist_body(prop, start, k, sel):
                     except transitions.MachineError:
                         pass
                     rt.require(w.snapshot() == before, 'c10:rejected-trigger-side-effect', f'{trig} rejected in {before[0]} but changed {before} -> {w.snapshot()}')
+                if f.state == 'updating' and f.transitioning != Status.active:
+                    # the dispatcher's archive trigger arriving on a stale activity check while the
+                    # reload is still pending: the machine's own guard must reject it untouched
+                    try:
+                        f.archiving_trigger()
+                        rt.fail('c10:early-archive-accepted', 'archiving_trigger accepted while the reload is still pending')
+                    except (transitions.MachineError, TypeError):
+                        pass
+                    rt.require(w.snapshot() == before, 'c10:rejected-trigger-side-effect', f'early archiving_trigger changed {before} -> {w.snapshot()}')
                 rt.nontrivial()
                 return
             # ---- monitors ---------------------------------------------------------
@@ -155,7 +166,7 @@ def hist_body(prop, start, k, sel):
                 rt.require(accepted, 'c12:update-without-submission', 'reload triggered although no submission is waiting')
                 if accepted:
                     strongest = Priority.max(*accepted)
-                    rt.require(cond(strongest, level), 'c12:update-too-early', f'reload triggered at work level {level} but the strongest request {strongest.name} needs its condition to hold')
+                    rt.require(cond(strongest, level), 'c12:update-too-early', f'reload triggered while work={sorted(level)} but the strongest request {strongest.name} needs its condition to hold')
                     rt.require(len(new_updates) == 1, 'c12:update-twice', 'reload triggered more than once for one set of submissions')
                 accepted = []
             if prop == 'C12' and accepted and Priority.max(*accepted) == Priority.NOW:
@@ -165,7 +176,7 @@ def hist_body(prop, start, k, sel):
     # ---- drain: every poller condition holds, every background job completes ----
     with rt.island():
         rt.note('DRAIN')
-        w.set_level(0)
+        w.set_level(frozenset())
         for _ in range(40):
             if not w.threads.pending:
                 break
